@@ -34,7 +34,7 @@ type dec struct {
 
 type workItem struct {
 	prefix []dec
-	m      model
+	m      *model
 }
 
 // InputVal is one symbolic input of a path with the value a model gave it.
@@ -144,7 +144,7 @@ type worker struct {
 	item   *workItem
 	pos    int
 	taken  []dec
-	m      model
+	m      *model
 	inputs []*Term
 	inputN map[string]int
 	strIn  map[string]bool
@@ -196,7 +196,7 @@ func Explore(cfg Config) *Result {
 	ex.cond = sync.NewCond(&ex.mu)
 	ex.res = &Result{Harness: cfg.Harness, Covers: map[string]int{}, Asserts: map[string]int{}, Funcs: map[string]int{}, Stubs: map[string]int{}}
 	ex.funcs = map[*ssa.Function]map[ssa.Instruction]bool{}
-	ex.queue = []*workItem{{prefix: nil, m: model{}}}
+	ex.queue = []*workItem{{prefix: nil, m: newModel()}}
 	start := time.Now()
 	fn := cfg.Pkg.Func(cfg.Harness)
 	if fn == nil {
@@ -451,6 +451,11 @@ func (w *worker) runPath(fn *ssa.Function, it *workItem) {
 	if len(w.taken) > ex.res.MaxDepth {
 		ex.res.MaxDepth = len(w.taken)
 	}
+	if outcome != "inconclusive" {
+		for _, c := range w.covers {
+			ex.res.Covers[c]++
+		}
+	}
 	switch outcome {
 	case "pruned":
 		ex.res.Pruned++
@@ -459,9 +464,6 @@ func (w *worker) runPath(fn *ssa.Function, it *workItem) {
 		return
 	}
 	ex.res.Paths++
-	for _, c := range w.covers {
-		ex.res.Covers[c]++
-	}
 	if outcome == "ok" && w.m != nil && (len(ex.res.Samples) < ex.cfg.SampleMax) {
 		ex.res.Samples = append(ex.res.Samples, w.sample())
 	}
@@ -779,13 +781,13 @@ func (w *worker) assertHolds(label string, c *Term) {
 	w.assume(c)
 }
 
-func (w *worker) currentModel() model {
+func (w *worker) currentModel() *model {
 	if w.m != nil {
 		return w.m
 	}
 	r, m := w.s.check(nil, w.inputs, true)
 	if r != resSat {
-		return model{}
+		return newModel()
 	}
 	w.m = m
 	return m
@@ -795,7 +797,7 @@ func (w *worker) violation(kind, label, msg string) {
 	w.violationWithModel(kind, label, msg, w.currentModel())
 }
 
-func (w *worker) violationWithModel(kind, label, msg string, m model) {
+func (w *worker) violationWithModel(kind, label, msg string, m *model) {
 	v := &Violation{Kind: kind, Label: label, Msg: msg, Site: w.where(), Harness: w.ex.cfg.Harness}
 	v.Tags = append(v.Tags, w.tags...)
 	v.Inputs = w.inputVals(m)
@@ -821,15 +823,16 @@ func (w *worker) violationWithModel(kind, label, msg string, m model) {
 	w.ex.res.Violations = append(w.ex.res.Violations, v)
 }
 
-func (w *worker) inputVals(m model) []InputVal {
+func (w *worker) inputVals(m *model) []InputVal {
 	out := make([]InputVal, 0, len(w.inputs))
 	for _, in := range w.inputs {
 		iv := InputVal{Name: in.name, Width: in.w}
 		if in.w == wStr {
 			iv.IsStr = true
 			iv.Width = 0
+			iv.Str = w.strValue(in, m)
 		} else {
-			iv.Val = m[in.name] & mask1(in.w)
+			iv.Val = m.bv[in.name] & mask1(in.w)
 		}
 		out = append(out, iv)
 	}
